@@ -402,6 +402,11 @@ func (vfs *BasePathFS) Rel(basepath, targpath string) (string, error) {
 // Remove removes the named file or (empty) directory.
 // If there is an error, it will be of type *PathError.
 func (vfs *BasePathFS) Remove(name string) error {
+	if vfs.isRoot(name) {
+		// the root directory of the BasePathFS is the base path itself: it can't be removed.
+		return &fs.PathError{Op: "remove", Path: name, Err: vfs.errRoot()}
+	}
+
 	err := vfs.baseFS.Remove(vfs.ToBasePath(name))
 
 	return vfs.FromPathError(err)
@@ -416,6 +421,11 @@ func (vfs *BasePathFS) RemoveAll(path string) error {
 	if path == "" {
 		// fail silently to retain compatibility with previous behavior of RemoveAll.
 		return nil
+	}
+
+	if vfs.isRoot(path) {
+		// the root directory of the BasePathFS is the base path itself: it can't be removed.
+		return &fs.PathError{Op: "unlinkat", Path: path, Err: vfs.errRoot()}
 	}
 
 	err := vfs.baseFS.RemoveAll(vfs.ToBasePath(path))
